@@ -10,6 +10,7 @@ import (
 	"runtime"
 	"sort"
 	"strings"
+	"sync/atomic"
 	"time"
 
 	"github.com/anishathalye/porcupine"
@@ -28,7 +29,7 @@ import (
 // the Go race detector evaluated on the simulated interleaving (race build).
 
 var concFaults = []string{"preempt", "lock-contended", "curve-first-use", "close-during-write", "rotation-during-handshake", "pct-schedule", "dense-preemption"}
-var concReach = []string{"block-shared", "pkg-sign", "pkg-encrypt", "pkg-hash", "pkg-sm4", "pkg-parse", "pkg-pkcs7-ber", "pkg-verify-chain", "cache-linearizable", "cache-eviction", "pool-verify", "conn-linearizable", "conn-close-raced", "write-after-close-failed", "config-handshakes", "config-rotated", "config-resumed", "tasks>=8", "tasks>=16", "porcupine-unknown"}
+var concReach = []string{"block-shared", "pkg-sign", "pkg-encrypt", "pkg-hash", "pkg-sm4", "pkg-parse", "pkg-pkcs7-ber", "pkg-verify-chain", "cache-linearizable", "cache-eviction", "pool-verify", "conn-linearizable", "conn-close-raced", "write-after-close-failed", "config-handshakes", "config-rotated", "config-resumed", "config-followup-resumption-owed", "config-rotation-inside-ticket-code", "conn-multi-record-writes", "tasks>=8", "tasks>=16", "porcupine-unknown"}
 
 func init() {
 	for i, p := range []struct {
@@ -724,6 +725,20 @@ func runConcConn(c *simkit.Choice, r *simkit.Rec) {
 	corrupt := c.Bool(1, 5, simkit.LScen) // one bit of the server->client stream flipped in transit during the application phase
 	corruptOff := c.Range(0, 400, simkit.LScen)
 	closeAfter2 := c.Range(0, 60, simkit.LScen)
+	// big: buffers larger than one record (several records per Write), at least two
+	// writers on the client side, no closing/corruption (every Write succeeds, so the
+	// stream must be a concatenation of whole buffers)
+	big := c.Bool(1, 5, simkit.LScen)
+	if big {
+		closer, halfCloser, corrupt = false, false, false
+		if nw[0] < 2 {
+			nw[0] = 2
+		}
+	}
+	rdBuf := 512
+	if big {
+		rdBuf = 20000
+	}
 	type wplan struct{ bufs []string }
 	var wp [2][]wplan
 	id := 0
@@ -733,6 +748,9 @@ func runConcConn(c *simkit.Choice, r *simkit.Rec) {
 			n := c.Range(1, 3, simkit.LOp)
 			for k := 0; k < n; k++ {
 				ln := []int{1, 2, 5, 40, 300}[c.Choose(5, simkit.LOp)]
+				if big && side == 0 {
+					ln = []int{16385, 17000, 33000, 40000, 300, 16384}[c.Choose(6, simkit.LOp)]
+				}
 				b := make([]byte, ln)
 				for x := range b {
 					b[x] = byte('A' + id%26)
@@ -753,7 +771,11 @@ func runConcConn(c *simkit.Choice, r *simkit.Rec) {
 	r.Config = fmt.Sprintf("conn/%04x/closer%v", suite, closer)
 	r.Sig(uint64(suite)<<8 | uint64(nw[0])<<4 | uint64(nr[0])<<2 | uint64(boolByte(closer)) | 5<<24)
 
-	s := simkit.NewSim(c, pol, 4000000)
+	budget := int64(4000000)
+	if big {
+		budget = 80000000 // several 16 KiB records through statement-instrumented record code
+	}
+	s := simkit.NewSim(c, pol, budget)
 	a, b := s.NewConnPair("cli", "srv", simkit.NetCfg{}, simkit.NetCfg{})
 	ccfg := &gmtls.Config{GMSupport: gmtls.NewGMSupport(), Rand: entC, Time: simTime(s, 0), RootCAs: pki.Pool("caA"), ServerName: "server.sim", CipherSuites: []uint16{suite}, SessionTicketsDisabled: true}
 	scfg := &gmtls.Config{GMSupport: gmtls.NewGMSupport(), Rand: entS, Time: simTime(s, 0), Certificates: gmServerCerts("srv-sign", "srv-enc"), CipherSuites: []uint16{suite}, SessionTicketsDisabled: true}
@@ -877,7 +899,7 @@ func runConcConn(c *simkit.Choice, r *simkit.Rec) {
 			}
 			for rd := 0; rd < nr[side]; rd++ {
 				s.Spawn(fmt.Sprintf("%s-r%d", []string{"cli", "srv"}[side], rd), side, func() {
-					buf := make([]byte, 512)
+					buf := make([]byte, rdBuf)
 					for k := 0; k < 40; k++ {
 						h := slot(1 - side) // reads consume the peer's direction
 						if h == nil {
@@ -1066,6 +1088,9 @@ func runConcConn(c *simkit.Choice, r *simkit.Rec) {
 			r.Reach(idx(concReach, "porcupine-unknown"))
 		default:
 			r.Reach(idx(concReach, "conn-linearizable"))
+			if big {
+				r.Reach(idx(concReach, "conn-multi-record-writes"))
+			}
 		}
 	}
 	if closer {
@@ -1158,7 +1183,19 @@ func runConcConfig(c *simkit.Choice, r *simkit.Rec) {
 	s := simkit.NewSim(c, pol, 8000000)
 	scfg := &gmtls.Config{Rand: simkit.NewStream(ent + 1), Time: simTime(s, 0)}
 	cache := gmtls.NewLRUClientSessionCache(2)
+	// own caches: every client keeps the ticket of its own connection, and offers it
+	// in a follow-up connection once everything concurrent is over
+	ownCache := c.Bool(1, 2, simkit.LScen)
 	ccfgs := make([]*gmtls.Config, nconn)
+	// written and read by different tasks: atomics (the scheduler's baton is invisible to the race detector)
+	hsStart := make([]atomic.Int64, nconn)
+	var rotEnd [3]atomic.Int64
+	var waitingFor atomic.Int64 // targeted rotation the rotator is waiting to perform (-1 = none)
+	waitingFor.Store(-1)
+	var inTicket atomic.Int64 // (declared before any task exists: later declarations would race with already spawned goroutines)
+	var anyFailed atomic.Bool
+	var connsDone atomic.Int64 // finished connection tasks (client and server ends)
+	var flags []*simkit.Flag
 	if mode == 0 {
 		scfg.GMSupport = gmtls.NewGMSupport()
 		scfg.Certificates = gmServerCerts("srv-sign", "srv-enc")
@@ -1169,6 +1206,9 @@ func runConcConfig(c *simkit.Choice, r *simkit.Rec) {
 	}
 	for i := range ccfgs {
 		cc := &gmtls.Config{Rand: simkit.NewStream(ent + 100 + uint64(i)), Time: simTime(s, 0), ServerName: "server.sim", ClientSessionCache: cache}
+		if ownCache {
+			cc.ClientSessionCache = gmtls.NewLRUClientSessionCache(1)
+		}
 		if mode == 0 {
 			cc.GMSupport = gmtls.NewGMSupport()
 			cc.RootCAs = pki.Pool("caA")
@@ -1178,6 +1218,54 @@ func runConcConfig(c *simkit.Choice, r *simkit.Rec) {
 			cc.CipherSuites = []uint16{0xc02f, 0x009c}
 		}
 		ccfgs[i] = cc
+	}
+	var rotGap [3]int
+	for k := range rotGap {
+		rotGap[k] = []int{10, 50, 200, 800, 2500, 6000}[c.Choose(6, simkit.LFault)]
+	}
+	// some of the three rotations happen before any connection starts; the others
+	// run concurrently, either after a drawn number of yields or timed to the
+	// moment some task stands inside the ticket code (statement-instrumented builds)
+	preRot := c.Choose(3, simkit.LFault)
+	targeted := c.Bool(1, 2, simkit.LFault)
+	// targeted: rotation k happens at the moment the hitTarget[k]-th statement of the
+	// ticket code (counted over all tasks since the previous rotation) is reached:
+	// the rotator is woken and boosted there, i.e. the whole SetSessionTicketKeys
+	// call falls between two statements of a task that is sealing or opening a ticket
+	var hitTarget [3]int64
+	for k := range hitTarget {
+		hitTarget[k] = int64(c.Range(1, 60, simkit.LFault))
+	}
+	var windows [3]*simkit.Flag
+	for k := range windows {
+		windows[k] = &simkit.Flag{Name: fmt.Sprintf("ticket-window-%d", k)}
+	}
+	var rotTask atomic.Value // *simkit.Task of the rotator
+	releaseRotator := func() {
+		// when the last connection task ends nobody will reach the ticket code any more
+		if connsDone.Add(1) == int64(2*nconn) {
+			for _, w := range windows {
+				w.Set()
+			}
+		}
+	}
+	if targeted && rotate {
+		s.OnSite = func(site int) {
+			if simkit.SiteFile(site) != "gmtls/ticket.go" {
+				return
+			}
+			k := waitingFor.Load()
+			if k < 0 || k > 2 {
+				return
+			}
+			if inTicket.Add(1) == hitTarget[k] {
+				waitingFor.Store(-1)
+				windows[k].Set()
+				if t, ok := rotTask.Load().(*simkit.Task); ok {
+					s.Boost(t)
+				}
+			}
+		}
 	}
 	type res struct {
 		cerr, serr   error
@@ -1193,9 +1281,14 @@ func runConcConfig(c *simkit.Choice, r *simkit.Rec) {
 	for i := 0; i < nconn; i++ {
 		i := i
 		a, b := s.NewConnPair(fmt.Sprintf("c%d", i), fmt.Sprintf("s%d", i), simkit.NetCfg{}, simkit.NetCfg{})
+		cf, sf := &simkit.Flag{Name: fmt.Sprintf("cdone%d", i)}, &simkit.Flag{Name: fmt.Sprintf("sdone%d", i)}
+		flags = append(flags, cf, sf)
 		s.Spawn(fmt.Sprintf("cli%d", i), 2*i, func() {
+			defer cf.Set()
+			defer releaseRotator()
 			conn := gmtls.Client(a, ccfgs[i])
 			if out[i].cerr = conn.Handshake(); out[i].cerr != nil {
+				anyFailed.Store(true)
 				a.Close()
 				return
 			}
@@ -1208,8 +1301,13 @@ func runConcConfig(c *simkit.Choice, r *simkit.Rec) {
 			out[i].cdone = true
 		})
 		s.Spawn(fmt.Sprintf("srv%d", i), 2*i+1, func() {
+			defer sf.Set()
+			defer releaseRotator()
 			conn := gmtls.Server(b, scfg)
-			if out[i].serr = conn.Handshake(); out[i].serr != nil {
+			hsStart[i].Store(s.StepCount())
+			out[i].serr = conn.Handshake()
+			if out[i].serr != nil {
+				anyFailed.Store(true)
 				b.Close()
 				return
 			}
@@ -1221,16 +1319,84 @@ func runConcConfig(c *simkit.Choice, r *simkit.Rec) {
 			out[i].sdone = true
 		})
 	}
+	rotateTo := func(k int) {
+		var k1, k2 [32]byte
+		k1[0], k2[0] = byte(k+1), byte(k)
+		scfg.SetSessionTicketKeys([][32]byte{k1, k2})
+		rotEnd[k].Store(s.StepCount())
+	}
 	if rotate {
+		for k := 0; k < preRot; k++ {
+			rotateTo(k)
+			rotEnd[k].Store(-1)
+		}
 		r.Fault(idx(concFaults, "rotation-during-handshake"))
-		s.Spawn("rotator", 100, func() {
-			for k := 0; k < 3; k++ {
-				for y := 0; y < 50; y++ {
+		rf := &simkit.Flag{Name: "rotated"}
+		flags = append(flags, rf)
+		rotTask.Store(s.Spawn("rotator", 100, func() {
+			defer rf.Set()
+			for k := preRot; k < 3; k++ {
+				if targeted && len(simkit.SiteTable) > 0 {
+					inTicket.Store(0)
+					waitingFor.Store(int64(k))
+					s.WaitFlag(windows[k]) // set by the OnSite hook, or by the last connection task to finish
+					rotateTo(k)
+					s.Unboost()
+					r.Reach(idx(concReach, "config-rotation-inside-ticket-code"))
+					continue
+				}
+				for y := 0; y < rotGap[k]; y++ {
 					simkit.Yield(-21)
 				}
-				var k1, k2 [32]byte
-				k1[0], k2[0] = byte(k+1), byte(k)
-				scfg.SetSessionTicketKeys([][32]byte{k1, k2})
+				rotateTo(k)
+			}
+		}))
+	}
+	// follow-up: after all concurrent activity, each client reconnects with its own
+	// cache. A ticket issued by a handshake that began after the second rotation had
+	// completed was sealed under key 2 or key 3 whatever the interleaving, both of
+	// which the final key list [3, 2] holds; without rotation the key never changed.
+	// Such a ticket must resume.
+	follow := make([]res, nconn)
+	owed := make([]bool, nconn)
+	if ownCache {
+		s.Spawn("follow-up", 102, func() {
+			for _, f := range flags {
+				s.WaitFlag(f)
+			}
+			if anyFailed.Load() {
+				return
+			}
+			for i := 0; i < nconn; i++ {
+				i := i
+				owed[i] = !rotate || hsStart[i].Load() > rotEnd[1].Load()
+				a, b := s.NewConnPair(fmt.Sprintf("fc%d", i), fmt.Sprintf("fs%d", i), simkit.NetCfg{}, simkit.NetCfg{})
+				cf, sf := &simkit.Flag{Name: "fcdone"}, &simkit.Flag{Name: "fsdone"}
+				s.Spawn(fmt.Sprintf("fcli%d", i), 2*i, func() {
+					defer cf.Set()
+					conn := gmtls.Client(a, ccfgs[i])
+					if follow[i].cerr = conn.Handshake(); follow[i].cerr != nil {
+						a.Close()
+						return
+					}
+					follow[i].resumed = conn.ConnectionState().DidResume
+					conn.Close()
+					follow[i].cdone = true
+				})
+				s.Spawn(fmt.Sprintf("fsrv%d", i), 2*i+1, func() {
+					defer sf.Set()
+					conn := gmtls.Server(b, scfg)
+					if follow[i].serr = conn.Handshake(); follow[i].serr != nil {
+						b.Close()
+						return
+					}
+					var one [1]byte
+					conn.Read(one[:])
+					conn.Close()
+					follow[i].sdone = true
+				})
+				s.WaitFlag(cf)
+				s.WaitFlag(sf)
 			}
 		})
 	}
@@ -1259,6 +1425,21 @@ func runConcConfig(c *simkit.Choice, r *simkit.Rec) {
 		}
 		if out[i].resumed {
 			r.Reach(idx(concReach, "config-resumed"))
+		}
+	}
+	if ownCache {
+		for i := range follow {
+			if follow[i].cerr != nil || follow[i].serr != nil {
+				r.Violate("handshake-failed", "gmtls.Config", fmt.Sprintf("follow-up connection %d failed: client=%v server=%v (rotate=%v)", i, follow[i].cerr, follow[i].serr, rotate))
+				return
+			}
+			if owed[i] {
+				r.Reach(idx(concReach, "config-followup-resumption-owed"))
+				if !follow[i].resumed {
+					r.Violate("result-differs", "gmtls.Config/ticket", fmt.Sprintf("connection %d obtained its ticket in a handshake that began at step %d, after the second key rotation had completed (step %d; rotate=%v); under every order of the concurrent calls that ticket was sealed under a key the final list still holds, yet the follow-up connection did not resume", i, hsStart[i].Load(), rotEnd[1].Load(), rotate))
+					return
+				}
+			}
 		}
 	}
 	r.Reach(idx(concReach, "config-handshakes"))
